@@ -296,7 +296,7 @@ def dependency_lookup(ctx: Ctx, rule: str) -> None:
                "" if ok else "an already attached setup node of a different object (e.g. the same image name of another vm) is accepted as the dependency")
     inner = [i for i in ast.walk(ifs[0]) if isinstance(i, ast.If) and i is not ifs[0]] if ifs else []
     tests = [ast.unparse(i.test) for i in inner]
-    ok2 = len(inner) == 2 and tests[0].startswith("re.search('(\\\\.|^)' + " + restr) and f"{nd}.params.get('name')" in tests[0] \
+    ok2 = len(inner) == 2 and tests[0] == f"re.search('(\\\\.|^)' + {restr} + '(\\\\.|$)', {nd}.params.get('name'))" \
         and tests[1] == f"{restr} == setup_object_params.get('set_state')" \
         and defs.get("setup_object_params") == f"{obj}.object_typed_params({nd}.params)"
     ctx.record(rule + "b", "GUARD", fref, "match by whole-variant name search, or by the state the setup node sets for that very object", ok2, {"tests": tests},
@@ -440,7 +440,9 @@ def cloning(ctx: Ctx, rule: str) -> None:
             problems.append((f"{len(apps)} clones are produced for one producing parent", v))
     ctx.record(rule, "COUNT", PCB, "exactly one clone per producing parent", not problems and bool(views), {"paths": len(views)},
                "" if not problems else problems[0][0])
-    defs = {}
+    from ..canon import CanonDict
+
+    defs = CanonDict()
     for s in ast.walk(loop):
         if isinstance(s, ast.Assign) and len(s.targets) == 1:
             defs.setdefault(ast.unparse(s.targets[0]), []).append(ast.unparse(s.value))
@@ -690,6 +692,8 @@ def name_forms(ctx: Ctx, rule: str) -> None:
                 elif ast.unparse(val) == r:
                     if not norm.implies(norm.conj([v.cond_formula(i) for i, s_ in enumerate(v.steps) if s_.kind == "cond"]), longer):
                         ok = False
+                elif ast.unparse(val) == acc:
+                    pass  # the other arm of `acc = r if longer else acc`: keeps the accumulator
                 else:
                     ok = False
         rets = [x for x in fn.node.body if isinstance(x, ast.Return)]
@@ -844,6 +848,20 @@ def lazy_predicates(ctx: Ctx, rule: str) -> None:
 
 
 # ---------------------------------------------------------------------- node objects
+def _added_to(stmt: ast.stmt, acc: str):
+    """('one', text) for acc.append(x) / acc += [x]; ('many', text) for acc += xs / acc.extend(xs); None otherwise."""
+    if isinstance(stmt, ast.AugAssign) and isinstance(stmt.op, ast.Add) and ast.unparse(stmt.target) == acc:
+        if isinstance(stmt.value, ast.List) and len(stmt.value.elts) == 1:
+            return ("one", ast.unparse(stmt.value.elts[0]))
+        return ("many", ast.unparse(stmt.value))
+    if isinstance(stmt, ast.Expr) and isinstance(stmt.value, ast.Call) and isinstance(stmt.value.func, ast.Attribute) and ast.unparse(stmt.value.func.value) == acc and len(stmt.value.args) == 1:
+        if stmt.value.func.attr == "append":
+            return ("one", ast.unparse(stmt.value.args[0]))
+        if stmt.value.func.attr == "extend":
+            return ("many", ast.unparse(stmt.value.args[0]))
+    return None
+
+
 def node_objects(ctx: Ctx, rule: str) -> None:
     """A node's objects: its net, the net's vms, their images, plus images only this test declares for a vm."""
     fref = f"{N_}.set_objects_from_net"
@@ -857,8 +875,8 @@ def node_objects(ctx: Ctx, rule: str) -> None:
     if ok:
         l = loops[0]
         o = l.target.id
-        adds = [ast.unparse(s) for s in l.body if isinstance(s, ast.AugAssign) and ast.unparse(s.target) == "self.objects"]
-        ok = adds == [f"self.objects += [{o}]", f"self.objects += {o}.components"]
+        adds = [a for a in (_added_to(s, "self.objects") for s in l.body) if a is not None]
+        ok = adds == [("one", o), ("many", f"{o}.components")]
         inner = [x for x in l.body if isinstance(x, ast.For)]
         vm = [s for s in l.body if isinstance(s, ast.Assign) and ast.unparse(s.targets[0]) == "vm_name"]
         ok = ok and len(inner) == 1 and len(vm) == 1 and ast.unparse(vm[0].value) == f"{o}.suffix"
@@ -867,7 +885,7 @@ def node_objects(ctx: Ctx, rule: str) -> None:
             ok = ast.unparse(inner[0].iter) == "self.params.object_params(vm_name).objects('images')"
             guard = [i for i in inner[0].body if isinstance(i, ast.If)]
             ok = ok and len(guard) == 1 and ast.unparse(guard[0].test) == f"{inner[0].target.id} not in parsed_images" \
-                and any(ast.unparse(x) == "self.objects += [image]" for x in guard[0].body)
+                and any(_added_to(x, "self.objects") == ("one", "image") for x in guard[0].body)
     ctx.record(rule, "PROV", fref, "objects = [net] + each vm + its parsed images + every image the node's own vm-specific parameters declare beyond those", ok, detail,
                "" if ok else "images that only this test declares for a vm are no longer taken from the test's own parameters: their dependencies would never be followed")
 
